@@ -7,6 +7,7 @@ package verifhook
 
 import (
 	"github.com/tableauio/tableau/internal/confgen"
+	"github.com/tableauio/tableau/internal/confgen/fieldprop"
 	"github.com/tableauio/tableau/internal/excel"
 	"github.com/tableauio/tableau/internal/protogen"
 	"github.com/tableauio/tableau/internal/protogen/parseroptions"
@@ -51,3 +52,13 @@ func Merge(dst, src proto.Message) error { return xproto.Merge(dst, src) }
 
 // CheckMapDuplicateKey is xproto.CheckMapDuplicateKey.
 func CheckMapDuplicateKey(dst, src proto.Message) error { return xproto.CheckMapDuplicateKey(dst, src) }
+
+// CheckInRange is fieldprop.CheckInRange.
+func CheckInRange(prop *tableaupb.FieldProp, fd protoreflect.FieldDescriptor, value protoreflect.Value, present bool) error {
+	return fieldprop.CheckInRange(prop, fd, value, present)
+}
+
+// CheckMapKeySequence is fieldprop.CheckMapKeySequence.
+func CheckMapKeySequence(prop *tableaupb.FieldProp, kind protoreflect.Kind, mapkey protoreflect.MapKey, prefMap protoreflect.Map) bool {
+	return fieldprop.CheckMapKeySequence(prop, kind, mapkey, prefMap)
+}
